@@ -29,7 +29,7 @@ PROP = "C14"
 RUNS = {"quick": 1200, "thorough": 120000}
 BUDGET_S = {"quick": 60, "thorough": 1500}
 RULE = ("one run = one connection x a history of 40-400 completed SDK operations of every kind (nesting <=3) with a flush "
-        "after every k-th (k drawn 1..12); non-trivial = the history holds at least 16 completed control operations "
+        "after every k-th (k drawn 1..12), plus 10-130 entanglement operations on a second connection; non-trivial = the history holds at least 16 completed control operations "
         "(more than the register file) and at least three flushes; distinct = distinct history digest")
 COMPONENTS = {
     "real": ["netqasm.sdk.memmgr.MemoryManager register pool", "Builder (if / loop / loop_until / foreach / enumerate "
@@ -39,13 +39,16 @@ COMPONENTS = {
              "allocating call site)", "trace memory", "generator + direct evaluator"],
 }
 ASSUMPTIONS = [
+    "entanglement operations (keep plain / post routine / context, measure, rsp; both roles) form a second history on a "
+    "compile-only connection: subroutines are assembled and encoded, not executed (their execution is judged by "
+    "C09/C10/C12)",
     "the program shapes of C05's two recorded findings (register future measured inside a body; add on a future the host "
     "already read) are excluded from these histories",
     "programs hold no user-level register handles (no new_register), so between operations the active set must be empty",
     "a leak is reported only after repetition makes compilation actually fail (<= 20 repetitions)",
     "register-future measurements are limited to 6 per flush segment (M registers are held until flush by design)",
 ]
-PROBES = ["ops>=100", "ops>=250", "flushes>=10", "depth-3", "if-on-future-unary",
+PROBES = ["epr-op", "ops>=100", "ops>=250", "flushes>=10", "depth-3", "if-on-future-unary",
           "loop_until", "regfuture-measure"]
 
 REPEAT = 20
@@ -190,6 +193,8 @@ def run(ch: Choices, opts: Dict[str, Any]) -> Dict[str, Any]:
     conn.close()
     conn.drain_now()
 
+    n_epr = epr_phase(ch, tier, bump, probes, faults, _small(sample))
+
     if len(history) >= 100:
         bump(probes, "ops>=100")
     if len(history) >= 250:
@@ -213,9 +218,120 @@ def run(ch: Choices, opts: Dict[str, Any]) -> Dict[str, Any]:
     return {
         "digest": dg, "fingerprint": h, "nontrivial": bool(nontrivial), "events": len(history), "sim_ns": 0,
         "faults": faults, "probes": probes, "calm": calm,
-        "sample": {"k_flush": k_flush, "ops": len(history), "control_ops": n_ctl, "flushes": n_flush,
+        "sample": {"k_flush": k_flush, "ops": len(history), "control_ops": n_ctl, "flushes": n_flush, "epr_ops": n_epr,
                    "history_head": history[:12]},
     }
+
+
+EPR_KINDS = ["create_keep", "recv_keep", "create_keep_post", "recv_keep_post", "create_context", "recv_context",
+             "create_measure", "recv_measure", "create_rsp", "recv_rsp"]
+
+
+def epr_phase(ch: Choices, tier: str, bump, probes, faults, small: Dict[str, Any]) -> int:
+    """Second half of the history: entanglement operations on a compile-only connection (the subroutines are
+    assembled and encoded but not executed -- execution of these forms is C09/C10/C12's business; here only the
+    register pool matters)."""
+    from netqasm.sdk.build_epr import EprMeasBasis
+    from netqasm.sdk.epr_socket import EPRSocket
+
+    SimNetworkInfo.node_ids["g7"] = 7
+    SimNetworkInfo.app_nodes["ghost"] = "g7"
+    node2 = ControllerNode("n1", 1, TraceQMem(lambda q: 0), lambda: 0, flavour="vanilla", with_stack=True)
+    sock = EPRSocket("ghost", epr_socket_id=0, remote_epr_socket_id=0)
+    conn2 = SimConnection("app2", node2, max_qubits=5, epr_sockets=[sock])
+    mm = conn2.builder._mem_mgr
+    site: Dict[Any, str] = {}
+    orig_add = mm.add_active_register
+
+    def add_active_register(reg):
+        st = traceback.extract_stack(limit=7)
+        names = [f.name for f in st[:-1] if f.filename.endswith(("builder.py", "futures.py", "memmgr.py", "epr_socket.py"))]
+        site[reg] = "<-".join(reversed(names[-3:])) if names else "?"
+        return orig_add(reg)
+
+    mm.add_active_register = add_active_register  # type: ignore[assignment]
+    n_ops = 10 + ch.draw(40 if tier == "quick" else 120, "nepr")
+    k_flush = 1 + ch.draw(8, "keprflush")
+    done: List[tuple] = []
+
+    def one(kind: str, n: int) -> None:
+        outcomes = conn2.new_array(n)
+
+        def post(c, q, pair):
+            q.H()
+            q.measure(future=outcomes.get_future_index(pair))
+
+        if kind == "create_keep":
+            for q in sock.create_keep(number=n):
+                q.measure()
+        elif kind == "recv_keep":
+            for q in sock.recv_keep(number=n):
+                q.measure()
+        elif kind == "create_keep_post":
+            sock.create_keep(number=n, post_routine=post, sequential=True)
+        elif kind == "recv_keep_post":
+            sock.recv_keep(number=n, post_routine=post, sequential=True)
+        elif kind == "create_context":
+            with sock.create_context(number=n, sequential=True) as (q, pair):
+                q.measure(future=outcomes.get_future_index(pair))
+        elif kind == "recv_context":
+            with sock.recv_context(number=n, sequential=True) as (q, pair):
+                q.measure(future=outcomes.get_future_index(pair))
+        elif kind == "create_measure":
+            sock.create_measure(number=n, basis_local=EprMeasBasis.X, basis_remote=EprMeasBasis.X)
+        elif kind == "recv_measure":
+            sock.recv_measure(number=n)
+        elif kind == "create_rsp":
+            sock.create_rsp(number=n)
+        else:
+            for q in sock.recv_rsp(number=n):
+                q.measure()
+
+    for i in range(n_ops):
+        kind = EPR_KINDS[ch.draw(len(EPR_KINDS), "eprkind")]
+        n = 1 + ch.draw(2, "eprn")
+        done.append((kind, n))
+        try:
+            one(kind, n)
+        except Violation:
+            raise
+        except Exception as e:  # noqa: BLE001
+            msg = str(e)
+            fr = traceback.extract_tb(e.__traceback__)[-1]
+            if "could not find an available" in msg or "Ran out of M-registers" in msg:
+                held = sorted(f"{r}@{site.get(r, '?')}" for r in mm._active_registers)
+                raise Violation("compile", f"compile-fails|registers-exhausted|epr:{kind}",
+                                {"after_epr_ops": len(done), "error": msg, "active_registers": held, "epr_history": done[-30:], **small})
+            raise Violation("sdk", f"sdk-exception|{type(e).__name__}|{fr.name}|epr:{kind}",
+                            {"error": msg[:300], "epr_history": done[-30:], **small})
+        bump(probes, "epr-op")
+        if mm._active_registers:
+            leaked = sorted(mm._active_registers, key=str)
+            sites = sorted({site.get(r, "?") for r in leaked})
+            failed = None
+            reps = 0
+            for reps in range(1, REPEAT + 1):
+                try:
+                    one(kind, n)
+                except Exception as e:  # noqa: BLE001
+                    failed = str(e)
+                    break
+            if failed is not None and ("could not find an available" in failed or "Ran out of" in failed or "already active" in failed):
+                raise Violation("leak", f"register-leak|epr:{kind}|{'+'.join(sites)}",
+                                {"operation": (kind, n), "leaked": [str(r) for r in leaked], "allocated_at": sites,
+                                 "fails_after_repetitions": reps, "error": failed[:200], "epr_history": done[-30:], **small})
+            raise Discard("leak observed but repetition did not exhaust the pool")
+        if (i + 1) % k_flush == 0:
+            try:
+                conn2.flush()
+            except Violation:
+                raise
+            except Exception as e:  # noqa: BLE001
+                fr = traceback.extract_tb(e.__traceback__)[-1]
+                raise Violation("sdk", f"sdk-exception|{type(e).__name__}|{fr.name}|epr-flush",
+                                {"error": str(e)[:300], "epr_history": done[-30:], **small})
+            conn2.outbox.clear()
+    return len(done)
 
 
 def _small(sample: Dict[str, Any]) -> Dict[str, Any]:
